@@ -457,6 +457,31 @@ def _paren_preserving_rule(ctx, res) -> None:
                     res.fail("R19.8", f"{h.name}|parentheses-are-looked-for-across-lines#{k}.{j}", f"{h.unit.rel}:{sub.lineno}",
                              f"`{ast.unparse(sub)[:70]}` bounds the search for the enclosing parenthesis (to the node's own line): in `return (\\n    a + b\\n) * c` the `(` stands on the "
                              "line above and the `)` on the line below, they are not seen, and `${x} * ${y}` -> `${y} * ${x}` gives `c * a + b`", function=h.qualname)
+        if ok:
+            # once the helper has SEEN the parentheses around the node, every way out gives them back: keeping a pair too many is harmless, dropping
+            # the pair of `not(a or b)` because its `(` "looks like a call" changes what the goal means
+            hcfg = CFG(h.node)
+            reported = set()
+            for t in hcfg.nodes:
+                if t.kind != "test" or not any(isinstance(c, ast.Call) and call_name(c) in ("endswith", "startswith") and c.args and isinstance(c.args[0], ast.Constant)
+                                               and c.args[0].value in ("(", ")") for c in ast.walk(t.ast)):
+                    continue
+                for b, lab in hcfg.succ[t.id]:
+                    if lab != "true":
+                        continue
+                    seen_nodes = hcfg.reachable(b)
+                    # only when this edge means "both parentheses seen": the last test of the conjunction
+                    for r in [x for x in hcfg.nodes if x.id in seen_nodes and x.kind == "stmt" and isinstance(x.ast, ast.Return) and x.ast.value is not None]:
+                        gs = hcfg.guards(r.id)
+                        both = any(pol and any(isinstance(c, ast.Call) and call_name(c) == "endswith" for c in ast.walk(g)) for g, pol in gs) and \
+                            any(pol and any(isinstance(c, ast.Call) and call_name(c) == "startswith" for c in ast.walk(g)) for g, pol in gs)
+                        consts = {y.value for y in ast.walk(r.ast.value) if isinstance(y, ast.Constant) and isinstance(y.value, str)}
+                        if both and not {"(", ")"} <= consts and r.id not in reported:
+                            reported.add(r.id)
+                            res.fail("R19.8", f"{h.name}|parentheses-seen-are-given-back#{k}.{len(reported)}", f"{h.unit.rel}:{r.lineno}",
+                                     f"`{ast.unparse(r.ast)[:50]}` hands the bound text back bare although the node was found written in parentheses: `not(a or b)` restructured with "
+                                     "`not ${x}` -> `not ${x}` becomes `not a or b` (a `(` glued to a keyword passes for a call parenthesis), and the only argument of a call moved "
+                                     "next to an operator loses its grouping (`abs(a - b)` -> `max(a - b, -a - b)`)", function=h.qualname)
         res.add("R19.8", f"_get_matched_text|bound-text#{k}", ok, f"{f.unit.rel}:{st.lineno}",
                 "the bound text passes through a parenthesis-restoring step before substitution" if ok else
                 "the text bound to a wildcard is substituted into the goal as the bare node region: `(a + b) * c` restructured with `${x} * ${y}` -> "
